@@ -243,6 +243,15 @@ def tokenize_tables(lib):
                             out['tables'][g] = tab
                             out['fallthrough'][g] = '_'
                 if ms:
+                    # what is matched must be the captured text itself: a case mapping or trimming in between changes which texts are keywords
+                    # and (through the catch-all arm) what the variable is called
+                    sc = ms[0]['scrutinee']
+                    chain = []
+                    while sc['k'] in ('Borrow', 'Deref', 'Use', 'NeverToAny') or (sc['k'] == 'Call' and sc['args']):
+                        if sc['k'] == 'Call': chain.append((callee_name(sc) or '').split('::')[-1]); sc = sc['args'][0]
+                        else: sc = sc.get('arg') or sc.get('source')
+                    out.setdefault('scrutinee', {})[g] = [c_ for c_ in chain if c_ not in ('as_str', 'deref', 'as_ref', 'borrow')]
+                if ms:
                     tab = {}
                     m = ms[0]
                     for a in m['arms']:
@@ -336,6 +345,11 @@ def rule_tokens(F, R, scope):
         R.violation('rsbdd::parser::SymbolicBDD::tokenize / T / tables', 'UNDECIDABLE', 'cannot extract the symbol / keyword tables from tokenize (anchor missing)')
         return None
     sym, kw = tabs['tables']['symbol'], tabs['tables']['identifier']
+    for g_, extra in sorted(tabs.get('scrutinee', {}).items()):
+        R.count('T:matched-text'); R.obligation(not extra, 'T scrutinee ' + g_)
+        if extra:
+            R.violation('rsbdd::parser::SymbolicBDD::tokenize / T / %s text is transformed before matching' % g_, 'T',
+                        'the %s text is passed through %s before it is matched: keywords and variable names are no longer the text as written' % (g_, '.'.join(extra)))
     def want(table, ref, what):
         for sp, tok in sorted(ref.items()):
             if scope != 'all' and tok not in scope: continue
